@@ -11,8 +11,12 @@ pub fn run(ctx: &Ctx, replay_file: Option<String>) -> ! {
     let (kfull, kmax) = ctx.tier.pick((3, 3), (3, 4));
     let (acc0, mut bound) = explore_programs::<Dual>("C01", kfull, kmax, 2);
     let (acc1, bound1) = explore_magnitudes::<Dual>("C01", ctx.tier.pick(2, 3));
-    let acc = acc0.merge(acc1);
+    let (acc2, bound2) = crate::largeops::explore_large("C01", false);
+    let (acc3, bound3) = explore_deep::<Dual>("C01");
+    let acc = acc0.merge(acc1).merge(acc2).merge(acc3);
+    bound["deep_formulas"] = bound3;
     bound["second_value_table_magnitudes"] = bound1;
+    bound["many_names"] = bound2;
     let meta = Meta::exploration(
         "programs = breadth-first closure of {8 leaves incl. a zero-valued and a one-valued one} under 10 unary operators (neg, pow 2/3/-1/0.5, exp, log, \
          norm_cdf, inv_norm_cdf, abs) and + - * / in the kind mixes dual-dual, dual-float, float-dual; EVERY program \
@@ -21,7 +25,9 @@ pub fn run(ctx: &Ctx, replay_file: Option<String>) -> ! {
          from the RefDual reference read back by name in a shuffled order with an absent name, (iii) the same \
          program with the float literal promoted to a variable-free Dual. Programs leaving the differentiable or \
          well-conditioned domain are skipped and counted. The reference rules themselves are validated against \
-         central finite differences of the plain program for all programs of <= 2 operators. Non-trivial: >= 2 \
+         central finite differences of the plain program for all programs of <= 2 operators. Deep formulas: nine chains of 10 .. 60 operators (Horner scheme, continued fraction, exp/log tower, cdf / inverse-cdf ping-pong, power chain, 24-term sum of products, Black-Scholes price, balanced tree of 32 leaves, sign chain), every intermediate stage judged as a program of its own, on both leaf tables. Many-names pass: each of the 10 unary \
+         functions (borrowed and owned) on a number carrying 7, 8, 9, 15, 16, 17, 31, 32, 33, 63, 64, 65, 100, 130 names stored in three orders \
+         (gradient = f'(x) g by name; binary operators on such numbers are C03's). Non-trivial: >= 2 \
          operators and >= 2 distinct variable names in the result.",
         bound,
     )
